@@ -40,8 +40,7 @@ type Segment struct {
 	fieldDocs  map[uint16]uint64 // fieldID -> # docs with value in field
 	fieldFreqs map[uint16]uint64 // fieldID -> # total tokens in field
 
-	storedFieldChunkOffsets      []uint64 // stored field chunk offset
-	storedFieldChunkUncompressed []byte   // for uncompress cache
+	storedFieldChunkOffsets []uint64 // stored field chunk offset
 
 	dictLocs       []uint64
 	fieldDvReaders map[uint16]*docValueReader // naive chunk cache per field
@@ -194,7 +193,8 @@ func (s *Segment) visitDocument(vdc *visitDocumentCtx, num uint64,
 	visitor segment.StoredFieldVisitor) error {
 	// first make sure this is a valid number in this segment
 	if num < s.footer.numDocs {
-		meta, uncompressed, err := s.getDocStoredMetaAndUnCompressed(num)
+		meta, uncompressed, buf, err := s.getDocStoredMetaAndUnCompressed(vdc.buf, num)
+		vdc.buf = buf
 		if err != nil {
 			return err
 		}
@@ -222,8 +222,6 @@ func (s *Segment) visitDocument(vdc *visitDocumentCtx, num uint64,
 			value := uncompressed[offset : offset+l]
 			keepGoing = visitor(s.fieldsInv[field], value)
 		}
-
-		vdc.buf = uncompressed
 	}
 	return nil
 }
